@@ -190,6 +190,19 @@ class LineRes:
             self.bad = True; self.detail = resline
 
 
+def has_nonfinite(impl):
+    """True when the implementation's answer contains a NaN / infinite float token."""
+    for t in impl.split():
+        try:
+            if len(t) == 9 and t[0] == "f":
+                if (int(t[1:], 16) >> 23) & 0xFF == 0xFF: return True
+            elif len(t) == 17 and t[0] == "d":
+                if (int(t[1:], 16) >> 52) & 0x7FF == 0x7FF: return True
+        except ValueError:
+            pass
+    return False
+
+
 def run_pipeline(lines, tag, wdir):
     """lines: request lines (including `case` separators). Returns list[LineRes]."""
     os.makedirs(wdir, exist_ok=True)
@@ -395,8 +408,8 @@ def check_property(pid, tier, seed, replay=None):
     bad = [f for f in failing if f[1] == "BAD"]
     for idx, kind, at in bad:
         r = per_case[idx][at]
-        if r.impl.startswith("PANIC"):
-            o_breaks.append((idx, "BAD", at))   # implementation failed where the model expects an answer
+        if r.impl.startswith("PANIC") or has_nonfinite(r.impl):
+            o_breaks.append((idx, "BAD", at))   # implementation failed (panic / NaN / inf) where the model expects an answer
         else:
             raise MachineryError(f"driver rejected a request: {r.req[:300]} => {r.impl[:200]} :: {r.detail}")
 
